@@ -130,3 +130,46 @@ def leaf_params(t, owner, out=None):
         for a in t[1]:
             leaf_params(a, owner, out)
     return out
+
+
+def swapped_arguments(F, callee_pred, body_pred=None):
+    """[(body, call, i, j, name)] : call sites of local functions (callee_pred) where argument i is the variable (local or
+    parameter) *named like parameter j* of the callee, j != i, parameter i and j have the same type, and the variable is not
+    named like parameter i.  Same-typed parameters (u64, Address, B256, U256 ...) make such a swap compile."""
+    out = []
+    for b in F.body_fns():
+        if "::tests::" in b.name or (body_pred is not None and not body_pred(b)):
+            continue
+        for c in b.calls():
+            g = F.fns.get(c.target_id) if c.target_id else None
+            if g is None or b.is_cleanup(c.bb) or not callee_pred(g):
+                continue
+            pn = g.j.get("param_names") or []
+            pt = g.j.get("inputs") or []
+            if len(pn) != len(c.args) or len(pt) != len(pn):
+                continue
+            names = []
+            for a in c.args:
+                t = strip(resolve(F, b, origin(b, a)))
+                nm = None
+                if t[0] in ("param", "upvar") and len(t) > 2:
+                    nm = t[2]
+                elif "l" in a and not a.get("p"):
+                    # follow plain moves to a named local
+                    l = a["l"]
+                    for _ in range(6):
+                        if b.local_name(l):
+                            nm = b.local_name(l)
+                            break
+                        ds = [d for d in b.defs().get(l, []) if d[2] == "assign" and d[3]["rv"]["k"] == "use" and "l" in d[3]["rv"]["ops"][0] and not d[3]["rv"]["ops"][0].get("p")]
+                        if len(ds) != 1:
+                            break
+                        l = ds[0][3]["rv"]["ops"][0]["l"]
+                names.append(nm)
+            for i, nm in enumerate(names):
+                if nm is None or nm == pn[i]:
+                    continue
+                for j, pj in enumerate(pn):
+                    if j != i and nm == pj and pt[i] == pt[j] and names[j] != pj:
+                        out.append((b, c, i, j, nm))
+    return out
